@@ -377,6 +377,15 @@ impl<'s> Scheduler<'s> {
                 break;
             }
             if let Some(item) = self.syscall_suspend.pop() {
+                // the entry is stale if a callback resumed the coroutine in the meantime;
+                // the coroutine may be parked again by now, with a later timeout of its own
+                let parked_until = self.syscall.get(&item.co_id).map(|r| r.value().state());
+                if !matches!(
+                    parked_until,
+                    Some(CoroutineState::Syscall((), _, SyscallState::Suspend(t))) if t <= now()
+                ) {
+                    continue;
+                }
                 if let Some((_, co)) = self.syscall.remove(&item.co_id) {
                     match co.state() {
                         CoroutineState::Syscall(val, syscall, SyscallState::Suspend(_)) => {
